@@ -3,6 +3,7 @@ package value
 import (
 	"fmt"
 	"sync"
+	"sync/atomic"
 )
 
 var RWMutexClass *Class              // ::Std::Sync::RWMutex
@@ -11,6 +12,10 @@ var RWMutexUnlockedErrorClass *Class // ::Std::Sync::RWMutex::UnlockedError
 // Wraps a Go RWMutex.
 type RWMutex struct {
 	Native sync.RWMutex
+	// Go's `fatal error: sync: Unlock/RUnlock of unlocked RWMutex` cannot be recovered (and some misuse
+	// is not even detected), so the holds are tracked here and an unlock without a hold never reaches Native.
+	writer  atomic.Bool  // a writer holds Native: set after Lock, cleared by exactly one Unlock
+	readers atomic.Int64 // read holds: incremented after RLock, decremented by ReadUnlock
 }
 
 func NewRWMutex() *RWMutex {
@@ -56,12 +61,14 @@ func (*RWMutex) InstanceVariables() *InstanceVariables {
 func (m *RWMutex) Lock() {
 	vhook("rw.lock.try", m)
 	m.Native.Lock()
+	m.writer.Store(true)
 	vhook("rw.lock.ok", m)
 }
 
 func (m *RWMutex) ReadLock() {
 	vhook("rw.rlock.try", m)
 	m.Native.RLock()
+	m.readers.Add(1)
 	vhook("rw.rlock.ok", m)
 }
 
@@ -74,6 +81,10 @@ func (m *RWMutex) Unlock() (err Value) {
 	}()
 
 	vhook("rw.unlock.try", m)
+	if !m.writer.CompareAndSwap(true, false) {
+		vhook("rw.unlock.err", m)
+		return Ref(NewError(RWMutexUnlockedErrorClass, "a rwmutex that is unlocked for writing cannot be unlocked for writing"))
+	}
 	m.Native.Unlock()
 	vhook("rw.unlock.ok", m)
 	return Undefined
@@ -88,6 +99,16 @@ func (m *RWMutex) ReadUnlock() (err Value) {
 	}()
 
 	vhook("rw.runlock.try", m)
+	for {
+		n := m.readers.Load()
+		if n <= 0 {
+			vhook("rw.runlock.err", m)
+			return Ref(NewError(RWMutexUnlockedErrorClass, "a rwmutex that is unlocked for reading cannot be unlocked for reading"))
+		}
+		if m.readers.CompareAndSwap(n, n-1) {
+			break
+		}
+	}
 	m.Native.RUnlock()
 	vhook("rw.runlock.ok", m)
 	return Undefined
